@@ -99,7 +99,7 @@ fn program<T: Elem>(rng: &mut Rng, pages: usize, max_ops: usize, tag_heavy: bool
     }
     let nops = rng.range(1, max_ops);
     for _ in 0..nops {
-        script.push(*rng.pick(if tag_heavy { &b"wwwwrrrcccwrcW"[..] } else { &b"wwwwrrccccfwrcWW"[..] }));
+        script.push(*rng.pick(if tag_heavy { &b"wwwwrrrcccwrcWX"[..] } else { &b"wwwwrrccccfwrcWWX"[..] }));
     }
     if rng.chance(1, 8) {
         script.push(*rng.pick(b"oC"));
@@ -228,6 +228,44 @@ fn program<T: Elem>(rng: &mut Rng, pages: usize, max_ops: usize, tag_heavy: bool
                     }
                 }
             }
+            b'X' => {
+                // Two write windows outstanding (both were handed the same free space): the first
+                // commits k samples, then the second tries to commit more than is free NOW. For the
+                // model: a write, then an over-commit, which must be refused.
+                let mut wb1 = w.write_buf().unwrap();
+                let wb2 = w.write_buf().unwrap();
+                let len = wb1.len();
+                if len < 2 {
+                    continue;
+                }
+                let k = rng.range(1, len - 1).max(len / 2 + 1).min(len);
+                for i in 0..k {
+                    wb1.slice()[i] = T::from_nat(counter.wrapping_add(i as u128) & mask(T::BITS));
+                }
+                req += &format!(" ; w {} {} {} 0", k, counter & mask(T::BITS), k);
+                counter = counter.wrapping_add(k as u128);
+                match quiet(move || wb1.produce(k, &[])) {
+                    Ok(()) => obs.push("ok".into()),
+                    Err(_) => {
+                        obs.push("refused".into());
+                        dead = true;
+                    }
+                }
+                if !dead {
+                    // free now = len - k; the stale window still shows len
+                    let free_now = len - k;
+                    let extra = rng.below(3).min(len - free_now - 1);
+                    let n = free_now + 1 + extra;
+                    req += &format!(" ; o {extra}");
+                    match quiet(move || wb2.produce(n, &[])) {
+                        Ok(()) => obs.push("ok".into()),
+                        Err(_) => {
+                            obs.push("refused".into());
+                            dead = true;
+                        }
+                    }
+                }
+            }
             b'o' => {
                 let wb = w.write_buf().unwrap();
                 let extra = rng.below(3);
@@ -337,15 +375,22 @@ pub fn run(args: &[String]) -> Vec<String> {
     for i in 0..cases {
         let mut r = rng.fork();
         let pages = *r.pick(&[1usize, 1, 1, 2, 3, 4]);
-        let (req, obs) = match i % 6 {
+        // a panic outside the operations that may legitimately refuse (commit, consume) is itself a finding
+        let res = quiet(|| match i % 6 {
             0 => program::<u8>(&mut r, pages, max_ops, tag_heavy),
             1 => program::<u16>(&mut r, pages, max_ops, tag_heavy),
             2 => program::<u32>(&mut r, pages, max_ops, tag_heavy),
             3 => program::<u64>(&mut r, pages, max_ops, tag_heavy),
             4 => program::<Complex>(&mut r, pages, max_ops, tag_heavy),
             _ => program::<[u8; 16]>(&mut r, pages, max_ops, tag_heavy),
-        };
-        lines.push(format!("{req}\t{obs}"));
+        });
+        match res {
+            Ok((req, obs)) => lines.push(format!("{req}\t{obs}")),
+            Err(p) => lines.push(format!(
+                "!ring case #{i} pages={pages} type={}\tFAIL the ring panicked in window acquisition / read-out (not in a commit or consume that may refuse): {p}",
+                i % 6
+            )),
+        }
     }
     lines
 }
